@@ -92,9 +92,14 @@ def _rest(m, chk, r, AX, ents):
                 ctl += 1
                 break
     chk.extra["float_positive_controls_seen"] = ctl
+    min_point(r, chk, MIN_POINT, floor=4)
+
+
+def min_point(r, chk, quals, floor: int = 4):
+    """minimal point type (`scalar * point`, `point + point`): no sum() from the int 0, no division of a point, no `point * scalar`"""
     # minimal point type: a syntactic taint of "is a control point" / "is a container of control points"
     n = 0
-    for q in MIN_POINT:
+    for q in quals:
         ctx = r.root(q)
         fi = ctx.fi
         pts, conts = point_taint(fi)
@@ -160,7 +165,8 @@ def _rest(m, chk, r, AX, ents):
             ok = not (lp and not rp)
             chk.ob("MIN-POINT", f"{q}: `{seg(node, 50)}` uses the points as right operand", ok, loc=r.loc(ctx, node),
                    detail="" if ok else f"{q}: `{seg(node, 60)}` multiplies `point * scalar` (points on the left): a user point type that only supports `scalar * point` and `point + point` (docs: custom objects) fails on this path", func=q, construct=f"point on the left: {seg(node, 40)}")
-    chk.floor("MIN-POINT", "products involving control points on the listed paths", n, 4)
+    chk.floor("MIN-POINT", "products involving control points on the listed paths", n, floor)
+    return n
 
 
 def _comp_points(comp, is_cont):
